@@ -55,6 +55,8 @@ static std::string gen_header(Rng& rng, int lines)
 	{
 		if(i)
 			h += "\n";
+		if(i > 0 && i < lines - 1 && rng.coin(0.4))
+			continue;	// a blank line inside a multi-line header
 		h += frag[rng.below(5)];
 	}
 	return h;
@@ -74,7 +76,7 @@ static void case_table(Rng& rng, uint64_t index)
 	if(units)
 		for(int j = 0; j < cols; j++)
 			dims.push_back(rng.coin(0.2) ? 1.0 : rng.loguni(1e-30, 1e30));
-	int hl = rng.irange(0, 3);
+	int hl = rng.irange(0, 4);
 	std::string header = gen_header(rng, hl);
 	std::vector<std::vector<double>> data(rows, std::vector<double>(cols));
 	for(auto& r : data)
